@@ -50,8 +50,9 @@ def run_one(ent):
                 known.add(l.split()[2].rstrip(":"))
         newfail = [f for f in failed if f.split()[1] not in known]
         hit = [f for f in newfail if expect in f]
+        conf = [l for l in r.stdout.splitlines() if l.startswith("REPLAY: ")]
         if r.returncode == 1 and viol and hit:
-            return (patch, prop, "CAUGHT", "; ".join(f.split()[1] for f in newfail))
+            return (patch, prop, "CAUGHT", "; ".join(f.split()[1] for f in newfail) + (("\n      " + conf[0]) if conf else ""))
         if r.returncode == 1 and viol:
             return (patch, prop, "CAUGHT-ELSEWHERE", "; ".join(f.split()[1] for f in newfail))
         return (patch, prop, "MISSED", r.stdout[-600:] + r.stderr[-300:])
